@@ -100,6 +100,18 @@ def install_gaussian_aggregate():
     _wrap(GaussianElectionModel, "get_aggregate_prediction_intervals", "gaussian_agg", grab)
 
 
+_FEAT_SERIAL = [0]
+
+
+def _feat_serial(obj, new=False):
+    """Identity of a Featurizer for associating its calls: a counter stored on the instance (id() values are re-used
+    after garbage collection, which would make the association depend on the process' memory layout)."""
+    if new or not hasattr(obj, "_sim_serial"):
+        _FEAT_SERIAL[0] += 1
+        obj._sim_serial = _FEAT_SERIAL[0]
+    return obj._sim_serial
+
+
 def install_featurizer():
     from elexmodel.handlers.data.Featurizer import Featurizer
 
@@ -111,7 +123,7 @@ def install_featurizer():
         for i, v in enumerate(a[1:]):
             kw[names[i]] = v
         kw.update(k)
-        return dict(fid=id(self), input=df[list(dict.fromkeys(cols))].copy(), out=ret.copy(), kw=kw,
+        return dict(fid=_feat_serial(self, new=True), input=df[list(dict.fromkeys(cols))].copy(), out=ret.copy(), kw=kw,
                     features=list(self.features), fixed_effect_cols=list(self.fixed_effect_cols),
                     fixed_effect_params=copy.deepcopy(self.fixed_effect_params),
                     complete_features=list(self.complete_features), active_features=list(self.active_features),
@@ -119,10 +131,10 @@ def install_featurizer():
                     states_for_separate_model=list(self.states_for_separate_model))
 
     def grab_active(self, a, k, ret):
-        return dict(fid=id(self), input_index=list(a[0].index), n=len(a[0]), out=ret.copy())
+        return dict(fid=_feat_serial(self), input_index=list(a[0].index), n=len(a[0]), out=ret.copy())
 
     def grab_holdout(self, a, k, ret):
-        return dict(fid=id(self), input=a[0].copy(), out=ret.copy())
+        return dict(fid=_feat_serial(self), input=a[0].copy(), out=ret.copy())
 
     _wrap(Featurizer, "prepare_data", "feat_prepare", grab_prepare)
     _wrap(Featurizer, "filter_to_active_features", "feat_active", grab_active)
